@@ -105,3 +105,53 @@ func vTypeProjects(diag bool) {
 		zzdiag.Diag(err, 1<<30)
 	}
 }
+
+var vDegenerate = []string{"", " ", "\n", "\t\r\n ", "# only a comment", "###\nblock\n###", "# c\n", "1 # c", "{", `"x"`}
+
+// VerifC02_DegenerateTypes: user types whose text has NO value at all (empty,
+// blanks, only a user comment) - such a text loads without an error - or is
+// cut short, registered under the names the root refers to: every operation
+// returns, twice in a row.
+func VerifC02_DegenerateTypes() {
+	zzverif.Expect("accepted", "rejected")
+	zzverif.BoundIsViolation()
+	vDegenerateTypes(false)
+}
+
+// VerifC16_DegenerateTypes: the same projects; every error is a well-formed diagnostic.
+func VerifC16_DegenerateTypes() {
+	zzverif.Expect("accepted", "rejected")
+	vDegenerateTypes(true)
+}
+
+func vDegenerateTypes(diag bool) {
+	root := New("root", vRoots[zzverif.IntRange("root", 0, len(vRoots)-1)])
+	ta := vDegenerate[zzverif.IntRange("a", 0, len(vDegenerate)-1)]
+	tb := vDegenerate[zzverif.IntRange("b", 0, len(vDegenerate)-1)]
+	for i, t := range []string{ta, tb} {
+		name := []string{"@a", "@b"}[i]
+		err := root.AddType(name, New(name, t))
+		if diag {
+			zzdiag.Diag(err, 1<<30)
+		}
+	}
+	for rep := 0; rep < 2; rep++ {
+		err := root.Check()
+		if diag {
+			zzdiag.Diag(err, 1<<30)
+		}
+		if err == nil {
+			zzverif.Reach("accepted")
+		} else {
+			zzverif.Reach("rejected")
+		}
+		_, err = root.Example()
+		if diag {
+			zzdiag.Diag(err, 1<<30)
+		}
+		_, err = root.GetAST()
+		if diag {
+			zzdiag.Diag(err, 1<<30)
+		}
+	}
+}
